@@ -244,7 +244,7 @@ const noVal = -99
 
 // ensureIndex loads the dataset into a fresh index of the cluster (once per data key).
 // partitions: the partitions of the S shards in that index.
-func (e *sysEnv) ensureIndex(sc *sysCluster, key string, data []dataCol, nshards int, owner []int) (string, []uint64, error) {
+func (e *sysEnv) ensureIndex(sc *sysCluster, key string, data []dataCol, counts [][]int, nshards int, owner []int) (string, []uint64, error) {
 	parts := func(name string) []uint64 {
 		out := make([]uint64, nshards)
 		for s := 0; s < nshards; s++ {
@@ -284,7 +284,7 @@ func (e *sysEnv) ensureIndex(sc *sysCluster, key string, data []dataCol, nshards
 	if _, err := api.CreateIndex(ctx, name, pilosa.IndexOptions{}); err != nil {
 		return "", nil, err
 	}
-	for _, f := range []string{"f", "g", "pad"} {
+	for _, f := range []string{"f", "g", "t", "pad"} { // ranked caches far larger than the rows: TopN has the true counts
 		if _, err := api.CreateField(ctx, name, f, pilosa.OptFieldTypeSet(pilosa.CacheTypeRanked, 1000)); err != nil {
 			return "", nil, err
 		}
@@ -309,6 +309,14 @@ func (e *sysEnv) ensureIndex(sc *sysCluster, key string, data []dataCol, nshards
 			fmt.Fprintf(&sb, "Set(%d, v=%d) ", c, d.V)
 		}
 	}
+	// the TopN field: counts[s][r-1] columns of shard s hold row r
+	for s, rowCnt := range counts {
+		for r, k := range rowCnt {
+			for j := 0; j < k; j++ {
+				fmt.Fprintf(&sb, "Set(%d, t=%d) ", tCol(s, r+1, j), r+1)
+			}
+		}
+	}
 	if _, err := query(sc.c[0], name, sb.String()); err != nil {
 		return "", nil, fmt.Errorf("loading data: %v", err)
 	}
@@ -329,6 +337,47 @@ func (e *sysEnv) ensureIndex(sc *sysCluster, key string, data []dataCol, nshards
 		delete(sc.indexes, old)
 	}
 	return name, ps, nil
+}
+
+// tCol is the j-th column of shard s that holds row r of field t (every (row, j) its own column).
+func tCol(s, r, j int) uint64 { return uint64(s)*pilosa.ShardWidth + 1000 + uint64(r)*16 + uint64(j) }
+
+// topNOK is the specification's TopNOK (MapReduce.tla) on a returned list: n (or all present)
+// entries with true totals in descending order, and every row that is among the n best of
+// some shard under every tie order (sure) is returned or no better than any returned entry.
+func topNOK(ps []pilosa.Pair, n int, tot map[uint64]uint64, sure []int) string {
+	wantLen := n
+	if len(tot) < n {
+		wantLen = len(tot)
+	}
+	if len(ps) != wantLen {
+		return fmt.Sprintf("%d entries, expected %d", len(ps), wantLen)
+	}
+	got := map[uint64]bool{}
+	for i, pr := range ps {
+		if tot[pr.ID] != pr.Count || pr.Count == 0 {
+			return fmt.Sprintf("row %d returned with count %d, its total is %d", pr.ID, pr.Count, tot[pr.ID])
+		}
+		if i > 0 && ps[i-1].Count < pr.Count {
+			return "not sorted by count"
+		}
+		if got[pr.ID] {
+			return fmt.Sprintf("row %d returned twice", pr.ID)
+		}
+		got[pr.ID] = true
+	}
+	for _, r := range sure {
+		if got[uint64(r)] {
+			continue
+		}
+		for _, pr := range ps {
+			if tot[uint64(r)] > pr.Count {
+				return fmt.Sprintf("row %d (total %d) is among the %d best of a shard, so a candidate under every placement, but row %d with total %d was returned instead",
+					r, tot[uint64(r)], n, pr.ID, pr.Count)
+			}
+		}
+	}
+	return ""
 }
 
 // ---- one case --------------------------------------------------------------------
@@ -386,21 +435,26 @@ func (e *sysEnv) runSystem(c *sysCase, res *behav.Result) (fails []sysFail, inco
 	}
 	sort.Slice(data, func(i, j int) bool { return data[i].Col < data[j].Col })
 	expect := behav.ToMap(place["expect"])
+	topn := behav.ToMap(place["topn"])
+	var counts [][]int
+	for _, row := range behav.ToList(topn["counts"]) {
+		counts = append(counts, behav.ToInts(row))
+	}
 	replicas := c.Replicas
 	if replicas <= 0 || replicas > n {
 		replicas = n
 	}
 	sc := e.cluster(clusterKey{n, replicas})
-	key := mustJSON(data)
+	key := mustJSON(data) + mustJSON(counts)
 	if replicas < n {
 		key += mustJSON(owner) // the data lives where this placement put it
 	}
-	index, parts, err := e.ensureIndex(sc, key, data, nshards, owner)
+	index, parts, err := e.ensureIndex(sc, key, data, counts, nshards, owner)
 	for try := 0; err != nil && try < 2; try++ {
 		// creating an index is a cluster-wide message exchange; on an overloaded machine it can time out
 		// half-way (and its retry then finds the index): start over with the next index name
 		time.Sleep(200 * time.Millisecond)
-		index, parts, err = e.ensureIndex(sc, key, data, nshards, owner)
+		index, parts, err = e.ensureIndex(sc, key, data, counts, nshards, owner)
 	}
 	if err != nil {
 		return nil, "setup: " + err.Error()
@@ -531,6 +585,29 @@ func (e *sysEnv) runSystem(c *sysCase, res *behav.Result) (fails []sysFail, inco
 				sort.Sort(sort.Reverse(sort.IntSlice(all)))
 				if !eqInts(counts, all[:wantLen]) {
 					fail(name, "wrong_result", "TopN(f, n=%d) = %v: counts %v, the %d largest totals are %v", k, ps, counts, k, all[:wantLen])
+				}
+			}
+		}
+	}
+	// TopN over the count matrix of field t: n smaller than the rows, several shards per node
+	if len(counts) > 0 {
+		tot := pairsOf(topn["tot"])
+		if r, ok := run("TopNt", "TopN(t)"); ok {
+			ps, _ := r.([]pilosa.Pair)
+			w := []pilosa.Pair{}
+			for id, cnt := range tot {
+				w = append(w, pilosa.Pair{ID: id, Count: cnt})
+			}
+			if got := canonPairs(ps); got != canonPairs(w) {
+				fail("TopNt", "wrong_result", "TopN(t) = %s, expected %s (shard x row counts %v)", got, canonPairs(w), counts)
+			}
+		}
+		for k, sureKey := range map[int]string{1: "sure1", 2: "sure2"} {
+			name := fmt.Sprintf("TopNt%d", k)
+			if r, ok := run(name, fmt.Sprintf("TopN(t, n=%d)", k)); ok {
+				ps, _ := r.([]pilosa.Pair)
+				if why := topNOK(ps, k, tot, behav.ToInts(topn[sureKey])); why != "" {
+					fail(name, "placement_dependent", "TopN(t, n=%d) = %v: %s (shard x row counts %v)", k, ps, why, counts)
 				}
 			}
 		}
